@@ -91,6 +91,21 @@ func buildArithSpace(tier string, seed int64) arithSpace {
 			s.Xs = append(s.Xs, o)
 		}
 	}
+	// WORD-DROP family: 19/20-digit coefficients around 2^63, 2^64, 10^19 and one half of 10^19 at exponents
+	// -30..-15, so that under every context of the space exactly 18, 19 or 20 digits (and the counts around
+	// them) are discarded at Etiny or by the precision: the discarded part itself crosses the 64-bit boundary
+	var wd []Operand
+	for _, c := range []*big.Int{pow2(63), new(big.Int).Sub(pow2(63), big.NewInt(1)), new(big.Int).Add(pow2(63), big.NewInt(1)), new(big.Int).Sub(pow2(64), big.NewInt(1)), pow2(64),
+		bigOf("9999999999999999999"), bigOf("9500000000000000000"), bigOf("5000000000000000000"), bigOf("5000000000000000001"), bigOf("4999999999999999999"), bigOf("15000000000000000000")} {
+		for ex := int32(-30); ex <= -15; ex++ {
+			wd = append(wd, FinBig(c, ex, false))
+			if ex%3 == 0 {
+				wd = append(wd, FinBig(c, ex, true))
+			}
+		}
+	}
+	s.Us = append(s.Us, wd...)
+	s.Desc += "; WORD-DROP family in U: 11 coefficients of 19-20 digits (2^63, 2^64, 10^19-1, 9.5*10^18, 5*10^18 +-1, 1.5*10^19) x exponents -30..-15"
 	s.Xs = append(s.Xs, longPartners()...)
 	s.Ys = append(s.Ys, longPartners()...)
 	s.Desc += "; LONG family: 129..300-digit coefficients with tails below/at/above one half in U (and a share in X), 70-digit and 1E+150 partners in X and Y"
